@@ -327,11 +327,17 @@ def pairing_ineq(t, d):
     return -d2 * a + d1 * b - (d0 + d2) * c >= 0
 
 
-def block_polys(cp, blk):
+def whole(cp):
+    """The whole program as one block."""
+    return dict(rows=list(range(cp.m)), locals=set(range(cp.n)), iface=set(), cones=list(range(len(cp.qmat))),
+                xcones=list(range(len(cp.xmat))), pcones=[])
+
+
+def block_polys(cp, blk, prefix='v'):
     """(G, H, cones): the block's constraints as Poly over names 'v<col>': G (g >= 0), H (h == 0); exponential-cone
     memberships weakened to their linear consequences, cone triples returned separately; of a second-order cone
     only head >= |tail_i| is kept."""
-    V = lambda j: Poly.var('v%d' % j)
+    V = lambda j: Poly.var('%s%d' % (prefix, j))
     G, H = [], []
     for i in blk['rows']:
         d, c, sgn = cp.rows[i]
@@ -357,8 +363,9 @@ def block_polys(cp, blk):
     return G, H, cones
 
 
-def block_socs(cp, blk):
-    return [(Poly.var('v%d' % cp.qmat[k][0]), [Poly.var('v%d' % j) for j in cp.qmat[k][1:]]) for k in blk['cones']]
+def block_socs(cp, blk, prefix='v'):
+    return [(Poly.var('%s%d' % (prefix, cp.qmat[k][0])), [Poly.var('%s%d' % (prefix, j)) for j in cp.qmat[k][1:]])
+            for k in blk['cones']]
 
 
 def pairing_poly(t, d):
